@@ -3,6 +3,7 @@ package harness
 import (
 	"fmt"
 	"net"
+	"strings"
 )
 
 // Generators of valid ("supported IPv4 envelope") rules. Every generator is
@@ -37,6 +38,14 @@ var KnownTriggers = []string{"up4-multi-pdr-session", "up4-far-update-leaves-tun
 func (g *Gen) DrawAvoid() {
 	for _, k := range KnownTriggers {
 		g.Avoid[k] = g.c(4, "avoid-"+k) != 1
+		if g.UP4 && !strings.HasPrefix(k, "up4-") {
+			// the BESS-side triggers have other consequences on UP4 (mostly a
+			// rejection); they are not explored there
+			g.Avoid[k] = true
+		}
+		if !g.UP4 && strings.HasPrefix(k, "up4-") {
+			g.Avoid[k] = true
+		}
 	}
 }
 
